@@ -63,6 +63,17 @@ PROPS = {
         ],
         "assumptions": E1_ASSUME,
     },
+    "C16": {
+        "level": "model_checking",
+        "engine": "explore (bounded-exhaustive enumeration)",
+        "technique": "bounded-exhaustive enumeration of schema family x argument objects (and output types x handler returns) on a real session, against an independent reference validator written for exactly that family",
+        "claim": "9 input schemas (required/optional, defaults, enums, integer bounds, nested object, array items, additionalProperties false/true) x every argument object over per-field alphabets (missing, null, wrong type, below/at/above bounds, not in enum, non-integral, undeclared and case-variant extra keys): the handler runs iff the reference validator accepts the defaulted arguments and then sees exactly those values; otherwise a tool error and no handler run. 7 output shapes (struct, pointer incl. nil, map incl. nil, slice, int, explicit schema with bound+default, any) x returns x own-content: structuredContent equals the JSON of the output with defaults, text rendering present when the handler supplied no content, schema-violating output is an error",
+        "note": "JSON Schema features outside the family (refs, oneOf, patterns, nested defaults, floats) are not covered; the reference validator is 100 lines written from the JSON Schema semantics of these keywords",
+        "parts": [
+            {"pkg": "mcp", "mode": "plain", "test": "TestVerifC16", "shards": 8},
+        ],
+        "assumptions": [],
+    },
     "C17": {
         "level": "model_checking",
         "engine": "explore (choice-tree DFS, sequential)",
